@@ -475,6 +475,19 @@ class ExecCore(object):
                     for n3, itv in n2:
                         outs.extend(self.for_loop(s, n3, itv, k, lspec))
             return outs
+        if isinstance(it, ast.Call) and isinstance(it.func, ast.Name) and it.func.id == 'enumerate' and 1 <= len(it.args) <= 2 \
+                and not it.keywords and isinstance(s.target, ast.Tuple) and len(s.target.elts) == 2 \
+                and front.resolve_global(self.modname, 'enumerate')[0] != 'missing' and 'enumerate' not in self.local_names:
+            start = 0
+            if len(it.args) == 2:
+                if not (isinstance(it.args[1], ast.Constant) and isinstance(it.args[1].value, int)):
+                    raise Unsupported('enumerate with a non-constant start')
+                start = it.args[1].value
+            normals, raises = self.ev(it.args[0], st)
+            outs = list(raises)
+            for n, itv in normals:
+                outs.extend(self.for_loop(_EnumFor(s, start), n, itv, k, lspec))
+            return outs
         normals, raises = self.ev(s.iter, st)
         outs = list(raises)
         for n, itv in normals:
@@ -581,7 +594,7 @@ class ExecCore(object):
         if self.feasible(b):
             item = SV(seq[ivar], elty)
             b.assume(shape(b, item.term, elty))
-            ns, rs = self.assign(s.target, item, b)
+            ns, rs = self.assign_loop_target(s, item, ivar, b)
             outs.extend(rs)
             for b1 in ns:
                 for o in self.exec_block(s.body, b1):
@@ -632,7 +645,7 @@ class ExecCore(object):
                     continue
                 item = SV(seq[i], elty)
                 more.assume(shape(more, item.term, elty))
-                ns, rs = self.assign(s.target, item, more)
+                ns, rs = self.assign_loop_target(s, item, i, more)
                 outs.extend(rs)
                 for c1 in ns:
                     for o in self.exec_block(s.body, c1):
@@ -674,14 +687,27 @@ class ExecCore(object):
             cur = nxt
         return outs
 
+    def assign_loop_target(self, s, item, pos, st):
+        """bind the loop target(s) for one iteration; pos is the 0-based position (int or z3 Int term)"""
+        ns, rs = self.assign(s.target, item, st)
+        if hasattr(s, '_idx_target'):
+            out = []
+            for c in ns:
+                idx = SV(VInt(z3.IntVal(pos) + s._start if isinstance(pos, int) else pos + s._start), Ty.INT)
+                n2, r2 = self.assign(s._idx_target, idx, c)
+                out.extend(n2)
+                rs = rs + r2
+            ns = out
+        return ns, rs
+
     def unrolled_for(self, s, st, items):
         """a loop over a constant sequence is unrolled exactly (complete, not a bound)"""
         outs = []
         cur = [st]
-        for it in items:
+        for pos, it in enumerate(items):
             nxt = []
             for c in cur:
-                ns, rs = self.assign(s.target, it, c)
+                ns, rs = self.assign_loop_target(s, it, pos, c)
                 outs.extend(rs)
                 for c1 in ns:
                     for o in self.exec_block(s.body, c1):
@@ -981,6 +1007,18 @@ class _ItemsFor(object):
     def __init__(self, s):
         self._s = s
         self.target = _ItemsTarget()
+        self.body, self.orelse = s.body, s.orelse
+
+    def __getattr__(self, name):
+        return getattr(self._s, name)
+
+
+class _EnumFor(object):
+    """view of `for i, x in enumerate(seq[, start])`: the loop runs over seq, the first target gets start + position"""
+    def __init__(self, s, start):
+        self._s = s
+        self.target = s.target.elts[1]
+        self._idx_target, self._start = s.target.elts[0], start
         self.body, self.orelse = s.body, s.orelse
 
     def __getattr__(self, name):
